@@ -36,6 +36,12 @@ CHECKS = {
  "C13": ("cmdsim","exploration","§5 C13","deterministic simulation over long histories with drop-counted tokens and read-only occupancy accessors",
    "Long generated histories of start/resolve/drop/abort cycles; at every quiescent point executor tasks, command tasks, registry entries by kind and live tokens must be accounted for by the reference's outstanding work, and be zero after the drain phase and after the host is dropped. Sampling, not proof.",
    "Trusted: verif accessors, the reference model's notion of outstanding work."),
+ "C15": ("capsim","exploration","§5 C15","deterministic simulation with peer-content fault injection: a simulated HTTP server returns generated results (any status, headers, bodies, errors) out of order; reference classification written from the statement; catch_unwind around every core call",
+   "Several HTTP requests outstanding at once through all three API styles and each body expectation are answered out of order by a simulated server with generated, partly hostile results; every result must yield exactly one outcome, classified as the statement says, and no result may panic the core. Sampling over results x histories, not proof.",
+   "Trusted: the reference classification incl. its text-decoding rules (utf-8 strict, latin1 table, BOM precedence left open); serde_json as conforming JSON decoder."),
+ "C16": ("capsim","exploration","§5 C16","deterministic simulation: simulated server holding a redirect graph, middleware stacks with marker/short-circuit/request-issuing layers, reference evaluator of stack x graph",
+   "Requests with generated middleware stacks (client-level through the verif hook, per-request through the public API) are sent through every API; the server answers from a redirect graph with cycles, over-long chains and odd Locations in PRNG order; the sequence of requests the server sees, the nesting of middleware marks, the round-trip bound and the final outcome are compared with a reference evaluator. Sampling, not proof.",
+   "Trusted: the reference evaluator; where the statement is silent (redirect without usable Location) only bound, nesting and absence of panics are asserted."),
  "C17": ("capsim","exploration","§5 C17","deterministic simulation: simulated key-value store behind the shell with reordered completions and injected store errors, on Core, bincode bridge and JSON bridge, three API styles",
    "Histories with many outstanding key-value calls are completed by a simulated store in any order, with every error variant and odd but legal answers; per step the app's record must equal exactly what the store answered for each call, and the operation the shell sees exactly what was asked, including across bincode and JSON. The data-fidelity dimension is only sampled; simulation contributes the history dimension.",
    "Trusted: the in-memory reference store; the store answers with the matching response variant."),
